@@ -325,9 +325,9 @@ func doc(typ *jv, c *jv, r *vproto.Rng) string {
 }
 
 func genJSON(out *bufio.Writer, r *vproto.Rng, tier string) {
-	scale := 1
+	scale := 2
 	if tier == "thorough" {
-		scale = 12
+		scale = 40
 	}
 	// 1. fixed corpus
 	fixed := []string{
